@@ -91,3 +91,11 @@ package builtins
 //   All#1, Any#1: range over the items of a set with an early exit; the result is the conjunction / disjunction of
 //   the members' truthiness, which does not depend on the order (IsTruthy has no side effect).
 //@ scan[C05.maploops.builtins] C05 maprange builtins: All#1 Any#1
+
+// C19 (gzip codec): decode reads the WHOLE decompressed stream from the gzip reader itself - io.ReadAll is handed the
+// *gzip.Reader, not a wrapper that may stop early (seed C19e read through an io.LimitReader: long highly compressible
+// payloads were cut short without an error and the trailer checksum was never reached).
+//@ func decodeGzip
+//@ props C19
+//@ trusted callpre
+//@ callpre[C19.gzip.whole] ReadAll: typeof(arg0) == *gzip.Reader
